@@ -147,9 +147,10 @@ class Ctx:
         return "(%s == %s)" % (a, b)
 
 
-def bind(fn, sigjson, tinfo):
+def bind(fn, sigjson, tinfo, native=False):
     """Match IR parameters with the demangled ones; returns Ctx with args/ret accessors bound to C expressions."""
     ctx = Ctx(fn, tinfo)
+    ctx.native = native
     irp = list(sigjson["params"])
     sret = None
     if irp and irp[0]["sret"]:
@@ -168,7 +169,7 @@ def bind(fn, sigjson, tinfo):
     if this:
         ctx.ir_order.append(("this", this["name"], this["type"]))
         a = Arg({"batch": "B", "bool": "M", "cbatch": "C"}[fn.cls_type.kind], fn.cls_type.tid, fn.cls_type.aid,
-                Val(this["type"], this["name"], tinfo))
+                Val(this["type"], this["name"], tinfo, native=native))
         a.cname, a.is_this = this["name"], True
         if fn.level == "compound":
             a.val = a.val.as_old()
@@ -178,7 +179,7 @@ def bind(fn, sigjson, tinfo):
             ctx.ir_order.append(("tag", ip["name"], ip["type"]))
             continue
         if pt.kind in ("batch", "bool", "cbatch"):
-            a = Arg({"batch": "B", "bool": "M", "cbatch": "C"}[pt.kind], pt.tid, pt.aid, Val(ip["type"], ip["name"], tinfo))
+            a = Arg({"batch": "B", "bool": "M", "cbatch": "C"}[pt.kind], pt.tid, pt.aid, Val(ip["type"], ip["name"], tinfo, native=native))
             a.cname, a.is_this = ip["name"], False
             a.writable = pt.ref and not pt.const
             if fn.level == "compound":
@@ -210,11 +211,11 @@ def bind_ret(ctx, kind, tid=None, aid=None):
     aid = aid or ctx.aid
     fn = ctx.fn
     if fn.level == "compound":
-        v = Val(ctx.this["type"], ctx.this["name"], ctx.job)
+        v = Val(ctx.this["type"], ctx.this["name"], ctx.job, native=ctx.native)
         ctx.assigns.append("*%s" % ctx.this["name"])
         ctx.ensures.append("__CPROVER_return_value == %s" % ctx.this["name"])
     elif ctx.sret:
-        v = Val(ctx.sret["type"], ctx.sret["name"], ctx.job)
+        v = Val(ctx.sret["type"], ctx.sret["name"], ctx.job, native=ctx.native)
         ctx.assigns.append("*%s" % ctx.sret["name"])
     elif kind == "S":
         r = Arg("S", tid, None, scalar="__CPROVER_return_value")
@@ -222,7 +223,7 @@ def bind_ret(ctx, kind, tid=None, aid=None):
     else:
         if ctx.ret_ctype == "void":
             raise Unsupported("void return where a value is expected")
-        v = Val(ctx.ret_ctype, "__CPROVER_return_value", ctx.job)
+        v = Val(ctx.ret_ctype, "__CPROVER_return_value", ctx.job, native=ctx.native)
     return Arg(kind, tid, aid, v)
 
 
@@ -244,25 +245,36 @@ def conj(xs, chunk=8):
 
 
 def harness_text(ctx, name, hname="harness"):
-    """Creates argument objects (with possible aliasing among same-typed read-only batches) and calls the target."""
+    """Creates argument objects (with possible aliasing among same-typed read-only batches), records every input leaf
+    in an OBS_<param>_<leaf> local (so that counterexample traces carry the inputs) and calls the target."""
     L = ["void %s(void) {" % hname]
     call = []
     objs = {}
+    obs = []   # (obs name, param index, kind, offset, nbytes, leafkind)
     k = 0
     for (kind, cname, ctype) in ctx.ir_order:
         if kind in ("sret", "this", "ptr", "tag"):
             pointee = ctype[:-1].strip()
             L.append("  %s O%d;" % (pointee, k))
-            same = [o for (o, t, kd) in objs.values() if t == pointee and kd == "ptr"] if kind == "ptr" else []
+            same = [o for (o, t, kd) in objs.values() if t == pointee and kd in ("ptr", "this")] if kind == "ptr" else []
+            ref = "O%d" % k
             if same and kind == "ptr":
                 L.append("  %s P%d = nondet_u1() ? &O%d : &%s;" % (ctype, k, k, same[0]))
                 call.append("P%d" % k)
+                ref = "(*P%d)" % k
             else:
                 call.append("&O%d" % k)
             objs[cname] = ("O%d" % k, pointee, kind)
+            if kind in ("this", "ptr"):
+                for j, (off, nb, lk, e) in enumerate(leaves(pointee, ref, ctx.job)):
+                    L.append("  %s OBS_%d_%d = %s;" % ({"u": UW.get(nb * 8, "u8"), "f": "f%d" % (nb * 8), "p": "u64"}[lk], k, j, e))
+                    obs.append(("OBS_%d_%d" % (k, j), k, kind, off, nb, lk))
         elif kind in ("scalar", "value"):
             L.append("  %s O%d;" % (ctype, k))
             call.append("O%d" % k)
+            for j, (off, nb, lk, e) in enumerate(leaves(ctype, "O%d" % k, ctx.job)):
+                L.append("  %s OBS_%d_%d = %s;" % ({"u": UW.get(nb * 8, "u8"), "f": "f%d" % (nb * 8), "p": "u64"}[lk], k, j, e))
+                obs.append(("OBS_%d_%d" % (k, j), k, kind, off, nb, lk))
         elif kind == "mem":
             call.append("HARNESS_MEM_%d" % k)
         k += 1
@@ -271,4 +283,5 @@ def harness_text(ctx, name, hname="harness"):
     L.append("  %s(%s);" % (name, ", ".join(call)))
     L.append("  __CPROVER_assert(0, \"canary: end of harness is reachable\");")
     L.append("}")
+    ctx.obs = obs
     return "\n".join(L) + "\n"
